@@ -343,7 +343,13 @@ func analyse(o *observation) []viol {
 		sort.Strings(got)
 		want := append([]string(nil), spec.Doc.Paths...)
 		sort.Strings(want)
-		if strings.Join(got, ",") != strings.Join(want, ",") {
+		if spec.Doc.RootNull {
+			// a field error that nulls the whole response may cancel whatever has
+			// not run yet (deferred sub-selections): only "nothing else ran" is demanded
+			if !subMultiset(got, want) {
+				vs = append(vs, viol{Sig: "resolve-count:executed-fields", Kind: "executed", Ext: -1, Msg: fmt.Sprintf("resolver invocations %v are not among the fields the document selects %v", got, want)})
+			}
+		} else if strings.Join(got, ",") != strings.Join(want, ",") {
 			vs = append(vs, viol{Sig: "resolve-count:executed-fields", Kind: "executed", Ext: -1, Msg: fmt.Sprintf("resolver invocations %v differ from the fields the document selects %v", got, want)})
 		}
 	}
@@ -436,6 +442,21 @@ func analyse(o *observation) []viol {
 		}
 	}
 	return vs
+}
+
+// subMultiset: every element of a (sorted) occurs in b (sorted) at least as often.
+func subMultiset(a, b []string) bool {
+	j := 0
+	for _, x := range a {
+		for j < len(b) && b[j] < x {
+			j++
+		}
+		if j >= len(b) || b[j] != x {
+			return false
+		}
+		j++
+	}
+	return true
 }
 
 func firedHook(fs []fault, h string) bool {
